@@ -299,6 +299,33 @@ func (v *Verifier) evalIdent(env *Env, name string) *Val {
 	if x, ok := env.Vars[name]; ok {
 		return x
 	}
+	if env.X != nil && env.X.ghostLetNames[name] {
+		gs := env.St
+		if gs == nil {
+			gs = env.LocalSt
+		}
+		if gs != nil {
+			if gv, ok := gs.GhostLets[name]; ok {
+				return gv
+			}
+		}
+		if t, ok := env.X.ghostLetTypes[name]; ok {
+			return freshVal(t, "ghostlet$"+name)
+		}
+		return &Val{T: types.Typ[types.UnsafePointer], Term: Fresh("ghostlet$"+name, SInt)}
+	}
+	if env.Fn != nil && (env.X == nil || env.Fn != env.X.Fn) {
+		// ghost let of a callee whose contract is being applied: an existentially bound value
+		if fc, ok := v.C.Funcs[v.P.FuncKey(env.Fn)]; ok {
+			for _, cl := range fc.Of("ghost") {
+				if strings.HasPrefix(cl.Text, "let "+name+" ") || strings.HasPrefix(cl.Text, "let "+name+"=") {
+					gv := &Val{T: types.NewInterfaceType(nil, nil), Term: Fresh("ghostlet$"+name, SInt)}
+					env.Vars[name] = gv
+					return gv
+				}
+			}
+		}
+	}
 	if p, ok := env.Vars["&"+name]; ok {
 		if p.Cell != nil && env.St != nil {
 			if c, ok := env.St.Cells[p.Cell]; ok {
@@ -321,7 +348,8 @@ func (v *Verifier) evalIdent(env *Env, name string) *Val {
 		for a, c := range env.X.cellOf {
 			if a.Comment == name {
 				if _, live := lst.Cells[c]; live {
-					if best == nil || a.Pos() < best.Site.Pos() {
+					// shadowing: the most recently declared live variable of that name
+					if best == nil || c.ID > best.ID {
 						best = c
 					}
 				}
@@ -517,7 +545,7 @@ func (v *Verifier) evalCall(env *Env, e *Expr) *Val {
 		case *types.Slice:
 			return intVal(a.Fields[1].Term)
 		case *types.Map:
-			return intVal(Ite(Eq(a.Term, IntLit(0)), IntLit(0), hs.mapLen(a.Term)))
+			return intVal(Ite(Eq(a.Term, IntLit(0)), IntLit(0), hs.mapLen(t, a.Term)))
 		case *types.Basic:
 			return intVal(UF("strlen", SInt, a.Term))
 		case *types.Chan:
@@ -545,7 +573,7 @@ func (v *Verifier) evalCall(env *Env, e *Expr) *Val {
 	case "ccap":
 		return intVal(Select(hs.ghostArr("ccap", SInt), arg(0).Term))
 	case "wg":
-		a := arg(0)
+		a := v.syncRef(env, args[0])
 		var r *Term
 		if env.X != nil {
 			r = env.X.refOf(a)
@@ -554,7 +582,7 @@ func (v *Verifier) evalCall(env *Env, e *Expr) *Val {
 		}
 		return intVal(Select(hs.ghostArr("wg", SInt), r))
 	case "wgtoken":
-		a := arg(0)
+		a := v.syncRef(env, args[0])
 		var r *Term
 		if env.X != nil {
 			r = env.X.refOf(a)
@@ -575,6 +603,9 @@ func (v *Verifier) evalCall(env *Env, e *Expr) *Val {
 		srt, ok := heapSorts[fam]
 		if !ok {
 			srt = ArrSort(SInt, SInt)
+			if lt := v.labelType(args[0].Op, name, idx); lt != nil && shapeOf(lt) == shLeaf {
+				srt = ArrSort(SInt, leafSort(lt))
+			}
 		}
 		_, es := arrParts(srt)
 		t := Select(hs.heapGet(fam, srt), arg(2).Term)
@@ -637,6 +668,11 @@ func (v *Verifier) evalCall(env *Env, e *Expr) *Val {
 		return boolVal(BoolLit(ok))
 	case "boxed":
 		a := arg(0)
+		if a.T != nil {
+			if _, isIface := a.T.Underlying().(*types.Interface); isIface {
+				return &Val{T: types.NewInterfaceType(nil, nil), Term: a.Term} // already an interface (or an opaque type parameter)
+			}
+		}
 		var ts []*Term
 		flatten(a, &ts)
 		return &Val{T: types.NewInterfaceType(nil, nil), Term: boxTerm(ts, a.T)}
@@ -667,20 +703,99 @@ func (v *Verifier) evalCall(env *Env, e *Expr) *Val {
 		unsupportedf("unbox: type %s has no leaf %s", tn, path)
 	case "hasdyntype":
 		a := arg(0)
-		bt := v.namedByName(args[1].Lit)
+		tn := args[1].Lit
+		var bt types.Type
+		if strings.HasPrefix(tn, "*") {
+			if n := v.namedByName(tn[1:]); n != nil {
+				bt = types.NewPointer(n)
+			}
+		} else if n := v.namedByName(tn); n != nil {
+			bt = n
+		}
 		if bt == nil {
-			unsupportedf("hasdyntype: unknown type %s", args[1].Lit)
+			unsupportedf("hasdyntype: unknown type %s", tn)
 		}
 		return boolVal(And(Neq(a.Term, IntLit(0)), Eq(dynType(a.Term), typeID(bt))))
+	case "unboxptr":
+		// unboxptr(v, "pkg.T"): the *T stored in interface value v
+		a := arg(0)
+		n := v.namedByName(args[1].Lit)
+		if n == nil {
+			unsupportedf("unboxptr: unknown type %s", args[1].Lit)
+		}
+		pt := types.NewPointer(n)
+		return &Val{T: pt, Term: UF("unbox$"+typeName(pt)+"$", SInt, a.Term)}
 	case "cancelled":
 		return boolVal(Select(hs.ghostArr("cancelled", SBool), arg(0).Term))
+	case "spawned":
+		return intVal(hs.ghostInt("spawned$" + args[0].Lit))
 	case "recvs":
 		return intVal(hs.ghostInt("recvs$" + exprText(args[0])))
 	case "sends":
 		return intVal(hs.ghostInt("sends$" + exprText(args[0])))
+	case "recvd":
+		n := exprText(args[0])
+		return &Val{T: types.Typ[types.UnsafePointer], Term: Select(hs.heapGet("G$recv$"+n, ArrSort(SInt, SInt)), arg(1).Term)}
 	case "sent":
 		n := exprText(args[0])
 		return &Val{T: types.Typ[types.UnsafePointer], Term: Select(hs.heapGet("G$sent$"+n, ArrSort(SInt, SInt)), arg(1).Term)}
+	case "jsonfield", "jsonbytes", "jsonhas", "jsonval":
+		// jsonfield(B, "pkg.Type", "Field"): the value json decoding assigns to that field for encoded bytes B
+		B := arg(0)
+		ns := v.namedByName(args[1].Lit)
+		if ns == nil {
+			unsupportedf("%s: unknown type %s", name, args[1].Lit)
+		}
+		ft := fieldTypeAt(ns, []string{args[2].Lit})
+		switch name {
+		case "jsonfield":
+			return &Val{T: ft, Term: UF(jsonFn(ns, args[2].Lit, ""), leafSort(ft), B.Term)}
+		case "jsonbytes":
+			return &Val{T: types.Typ[types.String], Term: UF(jsonFn(ns, args[2].Lit, "$bytes"), SStr, B.Term)}
+		case "jsonhas":
+			return boolVal(UF(jsonFn(ns, args[2].Lit, "$has"), SBool, B.Term, arg(3).Term))
+		default:
+			mt := ft.Underlying().(*types.Map)
+			return &Val{T: mt.Elem(), Term: UF(jsonFn(ns, args[2].Lit, "$val"), leafSort(mt.Elem()), B.Term, arg(3).Term)}
+		}
+	case "isclosure":
+		// isclosure(f, "pkg.Func$1"): f is a closure of that function literal (or that function itself)
+		fn := v.P.Funcs[args[1].Lit]
+		if fn == nil {
+			// synthetic wrappers (bound method values) are not package members: find them by name
+			parts := strings.SplitN(args[1].Lit, ".", 2)
+			var names []string
+			for f := range v.P.All {
+				if len(parts) == 2 && strings.Contains(f.String(), "/"+parts[0]+".") && (strings.HasSuffix(f.String(), strings.TrimPrefix(parts[1], "(*")) || strings.HasSuffix(strings.ReplaceAll(f.String(), modulePath+"/", ""), parts[1])) {
+					names = append(names, f.String())
+				}
+			}
+			sort.Strings(names)
+			if len(names) > 0 {
+				for f := range v.P.All {
+					if f.String() == names[0] {
+						fn = f
+					}
+				}
+			}
+		}
+		if fn == nil {
+			unsupportedf("isclosure: unknown function %s", args[1].Lit)
+		}
+		a := arg(0)
+		id := UF("fn$"+fn.String(), SInt)
+		return boolVal(And(Neq(a.Term, IntLit(0)), Or(Eq(UF("closurefn", SInt, a.Term), id), Eq(a.Term, id))))
+	case "closurevar":
+		idx, _ := strconv.Atoi(args[1].Lit)
+		return &Val{T: types.Typ[types.UnsafePointer], Term: UF(fmt.Sprintf("closurevar$%d", idx), SInt, arg(0).Term)}
+	case "jsondecval":
+		// jsondecval(B, x): the value json decoding yields for bytes B in a variable of x's (opaque) type
+		a := arg(1)
+		return &Val{T: a.T, Term: UF("json$dec$"+typeName(a.T), leafSort(a.T), arg(0).Term)}
+	case "jsonenc":
+		return &Val{T: types.Typ[types.String], Term: UF("json$enc", SStr, arg(0).Term)}
+	case "jsondecoded", "protodecoded":
+		return &Val{T: types.Typ[types.String], Term: Select(hs.ghostArr(name, SStr), arg(0).Term)}
 	case "real":
 		return &Val{T: types.Typ[types.Float64], Term: toReal(arg(0).Term)}
 	case "trunc":
@@ -851,6 +966,8 @@ func (v *Verifier) applyRecSpec(env *Env, sf *SpecFunc, args []*Val) *Val {
 		}
 		recDefs[smtName(fname)] = fmt.Sprintf("(define-fun-rec %s (%s) %s %s)", smtName(fname), strings.Join(ps, " "), def.Ret, bodyT.String())
 		def.Body = bodyT
+		recDefBodies[smtName(fname)] = bodyT
+		recDefParams[smtName(fname)] = append(append([]*Term{}, def.ParamTerms...), def.HeapTerms...)
 	}
 	var ts []*Term
 	for _, a := range args {
@@ -910,4 +1027,20 @@ func fixRecCalls(t *Term, def *recSpecDef) *Term {
 		return r
 	}
 	return rec(t)
+}
+
+// syncRef evaluates an expression denoting a sync primitive: a value field x.f denotes its address.
+func (v *Verifier) syncRef(env *Env, e *Expr) *Val {
+	if e.Kind == "sel" {
+		base := v.eval(env, e.Args[0])
+		if base.Term != nil && base.Fields == nil && pointee(base.T) != nil {
+			if ns := namedStruct(pointee(base.T)); ns != nil {
+				ft := fieldTypeAt(ns, []string{e.Op})
+				if _, isPtr := ft.Underlying().(*types.Pointer); !isPtr {
+					return &Val{T: types.NewPointer(ft), FP: &FieldPtr{Base: base.Term, Root: ns, Path: []string{e.Op}, T: ft}}
+				}
+			}
+		}
+	}
+	return v.eval(env, e)
 }
